@@ -75,6 +75,9 @@ Record SInvQ (c : scfg) (extra : list writeop) (s : sstate) : Prop := mkSInv {
   (* G: no ghost — an admitted EntryInfo is the one of the map entry of its key, or its removal is queued *)
   sg_no_ghost : forall i x, s_infos s !! i = Some x -> si_admitted x = true ->
       map_has_info s (si_key x) i = true \/ has_remove_for_info s (s_wq s ++ extra) i;
+  (* R: an EntryInfo whose removal is queued is detached from the map *)
+  sr_detached : forall k ve k' ve_m, WRemove k ve ∈ s_wq s ++ extra ->
+      s_map s !! k' = Some ve_m -> ve_info s ve_m <> ve_info s ve;
   (* O: no orphan — a map entry that is not admitted yet has its own write op queued *)
   so_no_orphan : forall k ve, s_map s !! k = Some ve ->
       si_admitted (get_info s (ve_info s ve)) = false -> has_upsert_for_ve (s_wq s ++ extra) ve;
@@ -100,7 +103,7 @@ Record SInvQ (c : scfg) (extra : list writeop) (s : sstate) : Prop := mkSInv {
       (forall ve, ve ∈ upsert_ves (s_wq s ++ extra) -> ve_m < ve);
   (* Q: the channels never fill up in the sequential regime *)
   sq_rq : qlen (s_rq s) <= READ_LOG_FLUSH_POINT;
-  sq_wq : qlen (s_wq s) + qlen extra <= WRITE_LOG_FLUSH_POINT + 1;
+  sq_wq : qlen (s_wq s) <= WRITE_LOG_FLUSH_POINT /\ qlen extra <= 1;
   (* K: the popularity sketch *)
   sk_sketch : sk_wf (s_sk s) /\ (s_skon s = false -> s_sk s = sk_empty)
 }.
